@@ -30,14 +30,16 @@ Section Backward.
        e_pgrad := fun q => if Nat.eqb q p then vadd VO (e_pgrad e p) gy else e_pgrad e q;
        e_pos := e_pos e |}.
 
+  Notation ops_t := (list (@opinfo Op Sh V)).
+
   (* "Gathers information of arguments": args_v[i] = value if valid else inner values (a
      non-parameter operator without value makes get_inner_values() throw: None); then the
      argument's gradient is materialised as zeros when invalid. *)
-  Fixpoint gather_args (g : gstate) (e : env) (args : list (nat * nat)) : option (list V * gstate) :=
+  Fixpoint gather_args (ops : ops_t) (e : env) (args : list (nat * nat)) : option (list V * ops_t) :=
     match args with
-    | [] => Some ([], g)
+    | [] => Some ([], ops)
     | a :: rest =>
-      match nth_error (g_ops g) (fst a) with
+      match nth_error ops (fst a) with
       | None => None
       | Some arg_f =>
         match nth_error (o_rets arg_f) (snd a) with
@@ -53,9 +55,9 @@ Section Backward.
           match ov with
           | None => None
           | Some v =>
-            match gather_args (upd_slot g a mat_zero) e rest with
+            match gather_args (upd_ops ops a mat_zero) e rest with
             | None => None
-            | Some (vs, g') => Some (v :: vs, g')
+            | Some (vs, ops') => Some (v :: vs, ops')
             end
           end
         end
@@ -64,10 +66,10 @@ Section Backward.
 
   (* the effect of op->backward on args_g: position i gets += inc_i, in order (the same
      node in two positions receives both increments) *)
-  Fixpoint add_incs (g : gstate) (args : list (nat * nat)) (incs : list V) : gstate :=
+  Fixpoint add_incs (ops : ops_t) (args : list (nat * nat)) (incs : list V) : ops_t :=
     match args, incs with
-    | a :: args', inc :: incs' => add_incs (upd_slot g a (add_inc inc)) args' incs'
-    | _, _ => g
+    | a :: args', inc :: incs' => add_incs (upd_ops ops a (add_inc inc)) args' incs'
+    | _, _ => ops
     end.
 
   Fixpoint all_vals (rets : list slot) : option (list V) :=
@@ -76,51 +78,55 @@ Section Backward.
     | s :: r => match s_val s, all_vals r with Some v, Some vs => Some (v :: vs) | _, _ => None end
     end.
 
-  (* one iteration of the loop `for (oid = node.oid_; oid >= 0; --oid)` *)
-  Definition bstep (k : nat) (g : gstate) (e : env) : option (gstate * env) :=
-    match nth_error (g_ops g) k with
+  Definition clear_grads (oi : @opinfo Op Sh V) : opinfo :=
+    set_rets oi (map (fun s => set_grad s None) (o_rets oi)).
+
+  (* one iteration of the loop `for (oid = node.oid_; oid >= 0; --oid)` on ops_; the boolean
+     says whether op->backward was called (false = `continue`) *)
+  Definition bstep (k : nat) (ops : ops_t) (e : env) : option (ops_t * env * bool) :=
+    match nth_error ops k with
     | None => None
     | Some cur =>
-      if negb (enabled (o_rets cur)) then Some (g, e)        (* continue *)
+      if negb (enabled (o_rets cur)) then Some (ops, e, false)        (* continue *)
       else
-        let g1 := {| g_ops := set_nth (g_ops g) k (set_rets cur (map mat_zero (o_rets cur)));
-                     g_log := g_log g; g_blog := g_blog g ++ [k] |} in
-        match gather_args g1 e (o_args cur) with
+        let ops1 := set_nth ops k (set_rets cur (map mat_zero (o_rets cur))) in
+        match gather_args ops1 e (o_args cur) with
         | None => None
-        | Some (xs, g2) =>
-          match nth_error (g_ops g2) k with
+        | Some (xs, ops2) =>
+          match nth_error ops2 k with
           | None => None
           | Some cur2 =>
             let gys := map grad_or_zero (o_rets cur2) in
             let r :=
               match f_inner F (o_op cur2) with
               | Some p => match gys with
-                          | gy :: _ => Some (g2, add_pgrad e p gy)   (* param_.gradient() += *gy[0] *)
+                          | gy :: _ => Some (ops2, add_pgrad e p gy)   (* param_.gradient() += *gy[0] *)
                           | [] => None
                           end
               | None => match all_vals (o_rets cur2) with
-                        | Some ys => Some (add_incs g2 (o_args cur2) (eff_bw F (o_op cur2) xs ys gys), e)
+                        | Some ys => Some (add_incs ops2 (o_args cur2) (eff_bw F (o_op cur2) xs ys gys), e)
                         | None => None
                         end
               end in
             match r with
             | None => None
-            | Some (g3, e3) =>
-              match nth_error (g_ops g3) k with
+            | Some (ops3, e3) =>
+              match nth_error ops3 k with
               | None => None
-              | Some cur3 =>                                         (* grad.invalidate() *)
-                Some (set_ops g3 (set_nth (g_ops g3) k
-                        (set_rets cur3 (map (fun s => set_grad s None) (o_rets cur3)))), e3)
+              | Some cur3 => Some (set_nth ops3 k (clear_grads cur3), e3, true)   (* grad.invalidate() *)
               end
             end
           end
         end
     end.
 
-  Fixpoint sweep (k : nat) (g : gstate) (e : env) : option (gstate * env) :=
-    match bstep k g e with
+  (* the whole loop from k down to 0; bl = operators whose backward was called, in order *)
+  Fixpoint sweep (k : nat) (ops : ops_t) (e : env) (bl : list nat) : option (ops_t * env * list nat) :=
+    match bstep k ops e with
     | None => None
-    | Some (g', e') => match k with O => Some (g', e') | S k' => sweep k' g' e' end
+    | Some (ops', e', called) =>
+      let bl' := if called then bl ++ [k] else bl in
+      match k with O => Some (ops', e', bl') | S k' => sweep k' ops' e' bl' end
     end.
 
   (* Graph::backward(node).  None = abort / unreachable *)
@@ -138,7 +144,10 @@ Section Backward.
       match r with
       | None => None
       | Some (g1, e1) =>
-        sweep (fst n) (upd_slot g1 n (fun s => set_grad s (Some (vones VO (s_shape s))))) e1
+        match sweep (fst n) (upd_ops (g_ops g1) n (fun s => set_grad s (Some (vones VO (s_shape s))))) e1 (g_blog g1) with
+        | None => None
+        | Some (ops', e', bl') => Some ({| g_ops := ops'; g_log := g_log g1; g_blog := bl' |}, e')
+        end
       end
     end.
 
